@@ -1,0 +1,32 @@
+/*
+ * Verification hooks. Everything in this file is inert unless the library is
+ * built with -DBLOC_VERIF. With the guard off BLOC_VERIF_POINT expands to
+ * nothing and no symbol is added to the library.
+ */
+#ifndef VERIF_HOOK_H_
+#define VERIF_HOOK_H_
+
+#ifdef BLOC_VERIF
+#include "declspec.h"
+
+/* kinds of instrumented points */
+#define BLOC_VP_STATEMENT   1   /* Statement::execute, before the statement runs */
+#define BLOC_VP_NULLNODE    2   /* the `null` constant node is handed out */
+#define BLOC_VP_RANDOM      3   /* the process-wide random generator is used */
+#define BLOC_VP_ERRWHAT     4   /* the error text buffer is written */
+#define BLOC_VP_CAPIERR     5   /* the C API last-error record is written or read */
+#define BLOC_VP_REFCOUNT    6   /* an object reference count is changed */
+#define BLOC_VP_PLUGIN      7   /* the plugin registry is used */
+
+extern "C" {
+/* the callback may throw (used as a deterministic step budget) */
+LIBBLOC_API extern void (*bloc_verif_point_cb)(int kind, const void * addr);
+}
+
+#define BLOC_VERIF_POINT(k, a) \
+  do { if (bloc_verif_point_cb) bloc_verif_point_cb((k), (const void*)(a)); } while (0)
+#else
+#define BLOC_VERIF_POINT(k, a) ((void)0)
+#endif
+
+#endif /* VERIF_HOOK_H_ */
